@@ -230,6 +230,8 @@ def _machine(second, bad, ev, mode, want):
             if last_msg[k][0] == bp.READY:
                 hist['dup_ready'].add(_name_of(jobs, last_msg[k][1][0]))
             w.emit(last_msg[k])
+            if want == 'dup':
+                return False
         elif e == 4:
             if mode not in ('fault',):
                 raise Prune()
@@ -320,6 +322,16 @@ def _pre(bad, ev):
     return 0 <= bad <= 3 and len(ev) == 2 * K + 1
 
 
+def _first(ev, firsts, sub):
+    """partitioning on the first event (one of `firsts`; anything else is pruned at once anyway) and on
+    ev[1] modulo `sub`: part index = (PART // 3) = f * sub + r"""
+    i = PART // 3
+    f, r = i // sub, i % sub
+    if f >= len(firsts):
+        return False
+    return ev[0] == firsts[f] and ev[1] % sub == r
+
+
 def _go(bad, ev, mode, want):
     try:
         return _machine(SECOND[PART % 3], bad, ev, mode, want)
@@ -329,15 +341,23 @@ def _go(bad, ev, mode, want):
 
 def h_dispatch(bad: int, ev: List[int]) -> bool:
     """
-    pre: _pre(bad, ev) and ev[0] == (PART // 3) % 4
+    pre: _pre(bad, ev) and _first(ev, (0, 1), 2)
     post: _
     """
     return _go(bad, ev, 'dispatch', None)
 
 
+def h_dispatch_twin(bad: int, ev: List[int]) -> bool:
+    """
+    pre: _pre(bad, ev) and _first(ev, (0, 1), 2)
+    post: _
+    """
+    return _go(bad, ev, 'dispatch', 'dup')
+
+
 def h_fault(bad: int, ev: List[int]) -> bool:
     """
-    pre: _pre(bad, ev) and bad == 0 and ev[0] == (PART // 3) % 6
+    pre: _pre(bad, ev) and bad == 0 and _first(ev, (0, 1, 4), 2)
     post: _
     """
     return _go(bad, ev, 'fault', None)
@@ -345,7 +365,7 @@ def h_fault(bad: int, ev: List[int]) -> bool:
 
 def h_fault_twin(bad: int, ev: List[int]) -> bool:
     """
-    pre: _pre(bad, ev) and bad == 0
+    pre: _pre(bad, ev) and bad == 0 and _first(ev, (0, 1, 4), 2)
     post: _
     """
     return _go(bad, ev, 'fault', 'lost')
@@ -361,7 +381,7 @@ def h_term(bad: int, ev: List[int]) -> bool:
 
 def h_term_twin(bad: int, ev: List[int]) -> bool:
     """
-    pre: _pre(bad, ev) and bad == 0
+    pre: _pre(bad, ev) and bad == 0 and (ev[0] == 0 or ev[0] == 1) and ev[0] == (PART // 3) % 2
     post: _
     """
     return _go(bad, ev, 'term', 'term')
